@@ -15,7 +15,8 @@ written from the published grammar (safe-ds.langium), not from the generator:
   primary     := 'union' '<' types '>' | 'literal' '<' literals '>' | 'unknown'
                | '(' params? ')' '->' results            (callable type)
                | qualifiedName ('<' types '>')?
-  expr        := 'true' | 'false' | 'null' | 'unknown' | NUMBER | STRING | '[' ']' | '{' '}'
+  expr        := 'true' | 'false' | 'null' | 'unknown' | NUMBER | STRING | '[' ']' | '{' '}' | '-'? ID   (a reference,
+                 possibly negated: the tool writes non-finite float defaults as `inf` / `-inf`)
   ID          := [_a-zA-Z][_a-zA-Z0-9]*  |  '`' [_a-zA-Z][_a-zA-Z0-9]* '`'
 
 Comments: `// …` to end of line and `/* … */` (not nested).  A keyword used as an identifier must be
@@ -56,7 +57,7 @@ TOKEN_RE = re.compile(r"""
   | (?P<num>-?\d+(?:\.\d+)?(?:[eE][-+]?\d+)?)
   | (?P<qid>`[_a-zA-Z][_a-zA-Z0-9]*`)
   | (?P<id>[_a-zA-Z][_a-zA-Z0-9]*)
-  | (?P<sym>->|[@(){}<>\[\],:=.?])
+  | (?P<sym>->|[@(){}<>\[\],:=.?-])
 """, re.X | re.S)
 
 ESCAPES = set("bfnrtv0'\"{\\u")
@@ -348,6 +349,10 @@ class Parser:
             return t.text
         if t.kind == "kw" and t.text in ("true", "false", "null", "unknown"):
             return t.text
+        if t.kind == "id":
+            return t.text
+        if t.kind == "sym" and t.text == "-" and self.toks[self.i].kind == "id":
+            return "-" + self.next().text
         if t.text == "[":
             self.expect("]")
             return "[]"
